@@ -294,6 +294,19 @@ func init() {
 				Budget: sim.Budget{Cuts: 3, Crashes: 1, Restarts: 1, Steps: 36, Reorders: -1, MsgSteps: 2, Deviations: d}})
 		}
 	}
+	// C16 seed S-contested: n0 and n2 both campaigned for term 1; n1 voted for
+	// n0, which leads; n2 lost as a candidate of the same term and follows n0.
+	// n2 has then been cut off for 10 intervals.
+	contested := sim.MustParse("timeout n0", "rt 0>1:RV#0 a=2", "timeout n2", "rt 2>1:RV#0 a=2", "rt 0>1:RV#1", "rt 2>1:RV#1",
+		"rt 0>2:RV#0", "rt 0>2:RV#1", "rt 2>0:RV#0", "rt 2>0:RV#1", "rt 0>1:AE#0", "rt 0>2:AE#0", "rt 0>1:AE#1", "rt 0>2:AE#1",
+		"isolate n2", "adv", "adv", "adv", "adv", "adv", "adv", "adv", "adv", "adv", "adv")
+	for d := 0; d <= 4; d++ {
+		for rot := 0; rot < 3; rot++ {
+			reg(&explore.Suite{Name: fmt.Sprintf("contested3r%d-d%d", rot, d), Cfg: sim.Config{Voters: 3, Timed: true, Asym: true, Rot: rot}, Seed: contested,
+				Monitors: stickyMonitors(0, []int{0, 1}), Filter: onlyNodes(2),
+				Budget: sim.Budget{Cuts: 2, Crashes: 1, Restarts: 1, Steps: 16, Reorders: -1, MsgSteps: 3, Deviations: d}})
+		}
+	}
 	// C16 seed S-snapcatchup (snapshots of two requests): n1 was down while the
 	// leader n0 compacted its log, came back cut off from everybody and stayed
 	// silent for 8 intervals; the link n0-n2 is cut, so n2 campaigns but still
@@ -328,6 +341,24 @@ func init() {
 		"adv", "adv", "adv", "adv", "adv", "adv", "adv", "adv", "adv", "adv", "adv", "adv", "adv")...)
 	for d := 0; d <= 4; d++ {
 		reg(&explore.Suite{Name: fmt.Sprintf("minlease5-d%d", d), Cfg: sim.Config{Voters: 5, Timed: true}, Seed: minority5, Monitors: leaseMonitors,
+			Budget: sim.Budget{Writes: 1, LeaseReads: 2, Lags: 1, Steps: 8, Reorders: -1, Deviations: d}})
+	}
+	// S-lagging (C17): n2 was cut off at index 2; n1 took over as leader of term
+	// 2 (entries 3, 4 committed with n0) and still probes n2 above its log, so
+	// n2 will reject its next heartbeat; the link n1-n0 has been cut for 7
+	// intervals and n0 is campaigning; the partition around n2 has just healed.
+	lagging := append(append([]sim.Event{}, seedLeader3...), sim.MustParse(
+		"isolate n2", "write n0", "rt 0>1:AE#2", "rt 0>1:AE#3", "timeout n1", "rt 1>0:RV#0 a=2", "rt 1>0:RV#1", "rt 1>0:AE#0", "rt 1>0:AE#1",
+		"drop 0>2:AE#2", "drop 0>2:AE#3", "drop 1>2:RV#0", "drop 1>2:RV#1", "cut n1 a=0", "adv", "adv", "adv", "adv", "adv", "adv", "adv", "heal", "cut n1 a=0")...)
+	for d := 0; d <= 4; d++ {
+		reg(&explore.Suite{Name: fmt.Sprintf("laglease3-d%d", d), Cfg: sim.Config{Voters: 3, Timed: true}, Seed: lagging, Monitors: leaseMonitors,
+			Budget: sim.Budget{Writes: 1, LeaseReads: 2, Lags: 1, Steps: 8, Reorders: -1, MsgSteps: 1, Deviations: d}})
+	}
+	// S-nonvoters, timed (C17): leader n0 keeps only the two non-voters; n1 leads
+	// term 2 on the other side; four intervals have passed.
+	nvLease := append(append([]sim.Event{}, seedNonVoters...), sim.MustParse("rt 1>2:AE#1", "adv", "adv", "adv", "adv")...)
+	for d := 0; d <= 4; d++ {
+		reg(&explore.Suite{Name: fmt.Sprintf("nvlease5-d%d", d), Cfg: sim.Config{Voters: 3, Spares: 2, Timed: true}, Seed: nvLease, Monitors: leaseMonitors,
 			Budget: sim.Budget{Writes: 1, LeaseReads: 2, Lags: 1, Steps: 8, Reorders: -1, Deviations: d}})
 	}
 	for d := 0; d <= 4; d++ {
